@@ -3,7 +3,7 @@ import math
 
 import numpy as np
 
-from checks.common import AFF, aff, farr, scale_of, call_warn, pair_cases, is_num
+from checks.common import AFF, aff, farr, scale_of, call_warn, pair_cases, is_num, medium_diagram
 from mc.enumerate import lattice_points
 from mc.seams import HKSeam
 from oracles import matching as om
@@ -32,7 +32,45 @@ def bounds(tier):
     return {"spaces": BOUNDS[tier], "aff": AFF[:3] + AFF[4:], "hash_groups": HASH_GROUPS[tier]}
 
 
+MEDIUM = {"quick": {"n": [5, 6, 8, 11], "k": 2}, "thorough": {"n": [5, 6, 7, 8, 11, 15, 20], "k": 3}}
+
+
+def medium_members(tier):
+    m = MEDIUM[tier]
+    return [(n, k, lat) for lat in (True, False) for n in m["n"] for k in range(m["k"])]
+
+
+def run_medium(case, ctx):
+    """Medium sizes: every returned matching must still certify the distance; the distance itself is
+    compared with the independent large-diagram references."""
+    import persim
+
+    a, b = case["a"], case["b"]
+    S, T = medium_diagram(int(a[0]), int(a[1]), bool(a[2])), medium_diagram(int(b[0]), int(b[1]), bool(b[2]))
+    ctx.state(("medium", a, b))
+    if a != b:
+        ctx.nontriv("medium_size_pair", key=("medium", a, b))
+    for which, fn, ref, tol in (("bottleneck", persim.bottleneck, om.bottleneck_large_ref(S, T), 1e-12), ("wasserstein", persim.wasserstein, om.wasserstein_large_ref(S, T), 1e-9 * 40)):
+        d0, _ = call_warn(ctx, fn, farr(S), farr(T))
+        res, _ = call_warn(ctx, fn, farr(S), farr(T), matching=True)
+        certify(ctx, which, S, T, d0, res, tol, "medium diagrams %r vs %r" % (a, b))
+        ctx.valid()
+        if not (is_num(d0) and abs(float(d0) - ref) <= tol * max(1.0, ref)):
+            ctx.violation(which + "-aggregate", "distance of medium diagrams differs from the independent reference", observed=d0, expected=ref, extra={"a": a, "b": b})
+    ctx.outcome(("medium", a, b))
+
+
 def cases(tier):
+    mem = medium_members(tier)
+    for x in range(len(mem)):
+        for y in range(len(mem)):
+            if mem[x][2] == mem[y][2]:
+                yield {"kind": "medium", "a": list(mem[x]), "b": list(mem[y])}
+    for c in small_cases(tier):
+        yield c
+
+
+def small_cases(tier):
     for sp in BOUNDS[tier]:
         alphabet = [tuple(p) for p in sp["alphabet"]] if "alphabet" in sp else lattice_points(sp["G"])
         for c in pair_cases(alphabet, sp["n"]):
@@ -101,6 +139,8 @@ def certify(ctx, which, S, T, d_plain, res, tol, what):
 def run_case(case, ctx):
     import persim
 
+    if case.get("kind") == "medium":
+        return run_medium(case, ctx)
     S, T = case["S"], case["T"]
     ctx.state((S, T))
     variants = [("base", S, T, 0.0, 1e-9)]
